@@ -9,7 +9,7 @@ use qrlew::{ast, data_type::DataTyped as _, namer, relation::{Relation, Variant 
 use serde_json::{json, Value as J};
 use std::hash::{Hash, Hasher};
 
-const EXTRA: [(&str, bool); 28] = [
+const EXTRA: [(&str, bool); 31] = [
     ("SELECT random() AS r, a AS a FROM t1", false),
     ("SELECT a AS a FROM t1 WHERE random() < 0.5", false),
     ("SELECT a + 1, b * 2, a + 1 FROM t1", false),
@@ -38,6 +38,11 @@ const EXTRA: [(&str, bool); 28] = [
     ("SELECT concat(d, '-', d) AS s FROM t1", false),
     ("SELECT concat(g) AS s, greatest(a, f, 2) AS m FROM t2", false),
     ("SELECT concat('a', g, 'b', 'c') AS s, least(a, 1) AS m FROM t2", false),
+    // NATURAL joins of relations that share several columns (the conjuncts of the ON condition have to come in one order)
+    // (explicit select list: for SELECT * SQLite keeps the left table's column order where the standard puts the common columns first)
+    ("SELECT a AS a, c AS c, z AS z FROM t1 NATURAL JOIN (SELECT a AS a, b AS b, d AS d, a + 1 AS z FROM t1) AS u", false),
+    ("SELECT c AS c FROM t1 NATURAL LEFT JOIN (SELECT a AS a, b AS b, c AS c, d AS d, e AS e FROM t1 WHERE b > 0) AS y", false),
+    ("SELECT count(*) AS n FROM (SELECT a AS a, b AS b, c AS c FROM t1) AS x NATURAL JOIN (SELECT a AS a, b AS b, c AS c FROM t1) AS y", false),
     // set operations whose two sides name their columns differently (the output names have to be made up)
     ("SELECT a, b FROM t1 UNION SELECT a AS x, a - 2 AS y FROM t2", false),
     ("SELECT a AS p, d AS q FROM t1 EXCEPT SELECT a AS r, g AS s FROM t2", false),
